@@ -6,6 +6,7 @@ import (
 	"fmt"
 	"sort"
 	"strings"
+	"sync"
 )
 
 // Cond is a condition over integer variables. It is printed twice: as expr-lang source for the XML
@@ -286,7 +287,59 @@ func (g *Graph) InsertThrows(next func(n int) int) int {
 }
 
 // XML renders the graph as a BPMN document with a single process.
+// XML renders the document and remembers which graph it came from, so that Start can compare what the parser read with
+// what the generator wrote (Describe).
 func (g *Graph) XML() string {
+	text := g.xmlText()
+	lastMu.Lock()
+	lastGraph, lastXML = g, text
+	lastMu.Unlock()
+	return text
+}
+
+var (
+	lastMu    sync.Mutex
+	lastGraph *Graph
+	lastXML   string
+)
+
+// Describe: what the generator wrote, in the vocabulary of ProgLines — per element id the beginning of its `prog` line
+// (kind, incoming and outgoing flows in order, scope, default flow, host and kind of a boundary event; source, target,
+// scope and condition of a sequence flow).
+func (g *Graph) Describe() map[string]string {
+	d := map[string]string{}
+	list := func(xs []string) string {
+		if len(xs) == 0 {
+			return "-"
+		}
+		return strings.Join(xs, ",")
+	}
+	for _, n := range g.Nodes {
+		line := fmt.Sprintf("node %s %s in=%s out=%s parent=%s", n.ID, n.Kind, list(n.In), list(n.Out), orDash(n.Parent))
+		switch n.Kind {
+		case "exclusiveGateway", "inclusiveGateway":
+			if n.Default != "" {
+				line += " default=" + n.Default
+			}
+		case "boundaryEvent":
+			line += fmt.Sprintf(" attached=%s interrupting=%d", n.Attached, b2i(n.Interrupting))
+		}
+		d[n.ID] = line
+	}
+	for _, f := range g.Flows {
+		cond := "none"
+		if f.Cond != nil {
+			cond = f.Cond.RPN()
+			if f.Cond.Op == "informal" {
+				cond = "informal"
+			}
+		}
+		d[f.ID] = fmt.Sprintf("flow %s %s %s %s %s", f.ID, f.Src, f.Dst, orDash(f.Parent), cond)
+	}
+	return d
+}
+
+func (g *Graph) xmlText() string {
 	var sb strings.Builder
 	if g.XPath {
 		sb.WriteString(strings.Replace(header, `expressionLanguage="https://github.com/expr-lang/expr"`, `expressionLanguage="http://www.w3.org/1999/XPath"`, 1))
